@@ -174,7 +174,8 @@ def h_performance(c):
   ns, notes, tq = _qseq(c, N, None, relative=relative, spq=4, sps=100,
                         unbounded=pattern is None, vel=(1, 127),
                         instruments=(0, 1) if pattern is None else (0, 0),
-                        steps=pattern)
+                        steps=pattern,
+                        pitch=tuple(c.params.get('pitch', (58, 62))))
   start = c.int('start', 0, None) if pattern is None else 0
   instrument = c.params.get('instrument')
   if relative:
@@ -423,7 +424,8 @@ def h_melody(c):
   N, S = c.params['N'], c.params['S']
   ts = tuple(c.params.get('ts', (4, 4)))
   spq = c.params.get('spq', 1)
-  ns, notes, tq = _qseq(c, N, S, relative=True, spq=spq, ts=ts, pitch=(60, 62),
+  ns, notes, tq = _qseq(c, N, S, relative=True, spq=spq, ts=ts,
+                        pitch=tuple(c.params.get('pitch', (60, 62))),
                         instruments=(0, 1), steps=c.params.get('steps'))
   search = c.params['search']
   gap_bars = c.params['gap']
@@ -535,6 +537,9 @@ def jobs(tier):
   add('h_performance', kind='absolute', N=2, bins=8, msq=4, loops=2, budget=600)
   add('h_performance', kind='metric', N=2, bins=0, msq=4, loops=2, budget=600)
   add('h_performance', kind='absolute', N=1, bins=127, msq=4, instrument=1)
+  # the ends of the pitch range (0 is falsy in Python)
+  add('h_performance', kind='absolute', N=1, bins=4, msq=4, pitch=[0, 1])
+  add('h_performance', kind='metric', N=1, bins=0, msq=4, pitch=[126, 127])
   # three notes on concrete step patterns (all interleavings of on/off order
   # that matter for the velocity / shift logic), everything else symbolic
   for pat in _PATTERNS3:
@@ -575,6 +580,10 @@ def jobs(tier):
       filter_drums=True)
   add('h_melody', N=1, S=4, search=0, gap=1, pad=False, ignore_poly=False,
       filter_drums=True, ts=[3, 8], spq=1)
+  add('h_melody', N=1, S=4, search=0, gap=1, pad=False, ignore_poly=False,
+      filter_drums=True, pitch=[0, 1])
+  add('h_melody', N=1, S=4, search=0, gap=1, pad=False, ignore_poly=False,
+      filter_drums=True, pitch=[126, 127])
   # 2-step bars: melody starting in a later bar, then a silent bar
   add('h_melody', N=2, S=6, search=0, gap=1, pad=False, ignore_poly=True,
       filter_drums=True, ts=[2, 4], budget=600)
